@@ -43,12 +43,29 @@ REQUIRED_COUNTERS = {'variants_equal': 100}
 ASSUMPTIONS = ['gfortran 12 -O0 with run-time checks is the reference semantics',
                'generated kernels are well-defined by construction (original must run clean, else the case is discarded)',
                'reals compared to relative 1e-11, integers exactly']
-BUDGET_S = {'quick': 400, 'thorough': 3000}
+BUDGET_S = {'quick': 1200, 'thorough': 3600}
 CASE_TIMEOUT_S = 240
 
 HOSTILES = ['overlap_fwd', 'overlap_elem', 'stride_mismatch', 'halfopen', 'where_no_loop', 'where_shifted',
             'where_multi', 'section_in_same_range_loop', 'transformational_intrinsic', 'strided_shifted',
             'colon_shifted', 'section_call_arg', 'neg_stride_py']
+
+# mechanism names of the hostile constructs (first part of the key of a violation attributed to them)
+MECH = {
+    'overlap_fwd': 'resolve:overlapping-sides-ascending-loop',
+    'overlap_elem': 'resolve:broadcast-element-overwritten-before-last-read',
+    'stride_mismatch': 'resolve:operand-strides-differ',
+    'halfopen': 'resolve:half-open-range',
+    'where_no_loop': 'resolve:where-body-index-unbound',
+    'where_shifted': 'resolve:where-mask-and-body-ranges-differ',
+    'where_multi': 'resolve:where-elsewhere',
+    'section_in_same_range_loop': 'resolve:reuses-enclosing-loop-variable',
+    'transformational_intrinsic': 'resolve:array-valued-intrinsic-argument-scalarised',
+    'strided_shifted': 'normalize:section-stride-dropped',
+    'colon_shifted': 'normalize:colon-on-shifted-dimension',
+    'section_call_arg': 'flatten:rank2-section-call-argument',
+    'neg_stride_py': 'shift_to_zero:negative-stride-stop',
+}
 
 FVARIANTS = ['rvn', 'rvn-opts', 'rvd', 'explicit', 'remove', 'nri', 'nasa', 'pipe']
 
@@ -389,6 +406,16 @@ def apply_identity(src):
     return _ID_CACHE[src]
 
 
+def coarse(cls):
+    if cls.startswith('exception:'):
+        return cls.split('@')[0]
+    if cls.startswith('compile-fail'):
+        return 'compile-fail'
+    if cls.startswith('runtime'):
+        return 'runtime-error'
+    return cls
+
+
 def status_class(status, info):
     if status == 'exception':
         return info['class']
@@ -447,7 +474,7 @@ def run_case(idx, rng, tier, ctx):
                 s2, i2 = run.run_variant(v, vopts[v], True, v + '_d')
                 if s2 in ('equal', 'same-text'):
                     attributed = hostile
-                    key = f'{v}:{cls}:{hostile}'
+                    key = f'{MECH[hostile]}:{v}:{coarse(cls)}'
                 elif s2 == 'orig_bad':
                     res['inconclusive'] = 'generator defect (hostile-free kernel): ' + i2['detail'][:300]
                     break
